@@ -4,6 +4,7 @@ use std::hash::{BuildHasher, Hasher};
 use std::sync::atomic::{AtomicU8, Ordering};
 
 pub mod seqrun;
+pub mod gen;
 
 /// splitmix64 — every random choice of the harness comes from one of these.
 #[derive(Clone)]
